@@ -14,7 +14,11 @@ RULE = ("single-fault scripts: every reply field of resPQ (nonce, server_nonce, 
         "encrypted_answer: ciphertext, SHA-1 prefix, padding length, total length), server_DH_inner_data (nonce, server_nonce, g, dh_prime, g_a, "
         "server_time; re-encrypted consistently) and dh_gen_ok (nonce, server_nonce, new_nonce_hash1) x {bit flip at sampled positions (all positions "
         "in thorough, long fields capped at 256..400), fresh random, the other nonce, zero} x alternative constructors (server_DH_params_fail, "
-        "dh_gen_retry, dh_gen_fail, resPQ / dh_gen_ok / pong out of place), no matching fingerprint, an empty fingerprint list. Fields the client "
+        "dh_gen_retry, dh_gen_fail, resPQ / dh_gen_ok / pong out of place; dh_gen_retry / dh_gen_fail carrying the VALID new_nonce_hash1 and dh_gen_ok carrying "
+        "hash2 / hash3), no matching fingerprint, an empty fingerprint list; answers that cannot be read at all, at each of the three steps: an unregistered "
+        "constructor id, a truncated body, an empty body, the 4-byte transport error frame -404, the connection closed; pq forced to a prime (2, 3, 2^31-1, "
+        "2^64-59, a random 40-bit one), 0, 1, the empty string, 68 bits, p^2, 4, 3*5*7. After every abandoned exchange one request is made on the same "
+        "client and the wire and the client state are observed. Fields the client "
         "cannot check (server_nonce and pq of resPQ, server_time) are altered consistently (the server goes along): there the expectation is "
         "'no panic, no hang, and success only with equal secrets'. distinct non-trivial = distinct (field, corruption kind, position / constructor)")
 NOTE = "quick: ~400 scripts (the single-fault table repeated over different base exchanges with fresh positions); 4 conformant controls"
